@@ -31,3 +31,45 @@ func SpecEscaped(s string, i int) bool {
 //@   loop 0 invariant escapeCounter >= 0
 //@   loop 0 invariant SpecBsRun(input, position) == escapeCounter + SpecBsRun(input, backtrackIndex+1)
 //@   loop 0 decreases backtrackIndex + 1
+
+// ---- assumed (extern) contracts on the Go standard library, shared by all packages.
+// Each states exactly the part of the behaviour the proofs use.
+
+//@ extern bytes.Equal
+//@   params a b
+//@   results r
+//@   ensures r == (a == b)
+
+//@ extern strings.HasSuffix
+//@   params s suffix
+//@   results r
+//@   ensures r == (len(s) >= len(suffix) && s[len(s)-len(suffix):] == suffix)
+
+//@ extern strings.HasPrefix
+//@   params s prefix
+//@   results r
+//@   ensures r == (len(s) >= len(prefix) && s[:len(prefix)] == prefix)
+
+// OpaqueScanLines: the lines a bufio.Scanner with ScanLines and an unlimited buffer
+// yields for s (split at "\n", one trailing "\r" removed per line, no final empty line).
+// Uninterpreted for the prover; the scanner ghost model links its line list to it.
+func OpaqueScanLines(s string) []string {
+	var out []string
+	for len(s) > 0 {
+		i := 0
+		for i < len(s) && s[i] != '\n' {
+			i++
+		}
+		line := s[:i]
+		if i < len(s) {
+			s = s[i+1:]
+		} else {
+			s = ""
+		}
+		if len(line) > 0 && line[len(line)-1] == '\r' {
+			line = line[:len(line)-1]
+		}
+		out = append(out, line)
+	}
+	return out
+}
